@@ -95,22 +95,20 @@ type NSGen struct {
 	Pos  map[string]int // position-class coverage
 }
 
-var nsSegs = []string{"App", "Lib", "Db", "Util", "Model", "User", "Conn", "Str", "Http", "Foo", "Bar", "Baz", "Qux"}
+// (two segments carry non-ASCII letters: PHP folds the case of A-Z only, and the generator never changes other bytes)
+var nsSegs = []string{"App", "Lib", "Db", "Util", "Model", "User", "Conn", "Str", "Http", "Foo", "Bar", "Baz", "Qux", "\u00c9cole", "\u00dcber"}
 var nsFuncs = []string{"helper", "run", "make", "strlen", "Foo", "str", "define", "class_exists", "defined"}
 var nsConsts = []string{"MAX", "VERSION", "Flag", "Foo", "DEBUG"}
 
 func (x *NSGen) r() *core.Rand { return x.g.R }
 
 func flipCase(r *core.Rand, s string) string {
-	switch r.Intn(4) {
-	case 0:
-		return strings.ToUpper(s)
-	case 1:
-		return strings.ToLower(s)
-	case 2:
+	switch k := r.Intn(4); k {
+	case 0, 1, 2:
+		up, low := k == 0, k == 1
 		b := []byte(s)
 		for i := range b {
-			if r.Bool() {
+			if (up && b[i] >= 'a' && b[i] <= 'z') || (low && b[i] >= 'A' && b[i] <= 'Z') || (!up && !low && r.Bool()) {
 				if b[i] >= 'a' && b[i] <= 'z' {
 					b[i] -= 32
 				} else if b[i] >= 'A' && b[i] <= 'Z' {
@@ -127,11 +125,18 @@ func flipCase(r *core.Rand, s string) string {
 func (x *NSGen) nameNode(form int, parts []string) *Node {
 	var ps []*Node
 	var body []interface{}
+	// PHP <= 7.4 lexes a qualified name as separate tokens: blanks and comments may stand around the separators
+	spaced := x.r().Chance(1, 8)
 	for i, s := range parts {
 		p := &Node{Kind: "NamePart", Val: s, HasVal: true, Parts: []interface{}{t(s)}}
 		if i > 0 {
 			p.Parts = []interface{}{tn(s)}
-			body = append(body, tn("\\"))
+			if spaced {
+				p.Parts = []interface{}{t(s)}
+				body = append(body, t("\\"))
+			} else {
+				body = append(body, tn("\\"))
+			}
 		}
 		ps = append(ps, p)
 		body = append(body, p)
